@@ -94,22 +94,35 @@ RSgn(x) == IF x.c = "inf" THEN x.m ELSE IF x.m < 0 THEN -1 ELSE IF x.m > 0 THEN 
 RAdd(x, y) == IF x.c = "nan" \/ y.c = "nan" THEN NaN
               ELSE IF x.c = "inf" /\ y.c = "inf" THEN (IF x.m = y.m THEN x ELSE NaN)
               ELSE IF x.c = "inf" THEN x ELSE IF y.c = "inf" THEN y
+              ELSE IF x.m = 0 THEN y ELSE IF y.m = 0 THEN x
               ELSE LET a == Al(x, y) IN Norm(Fin(a[1] + a[2], a[3]))
 RNeg(x) == IF x.c = "nan" THEN NaN ELSE [x EXCEPT !.m = -x.m]
 RMul(x, y) == IF x.c = "nan" \/ y.c = "nan" THEN NaN
               ELSE IF x.c = "inf" \/ y.c = "inf" THEN (IF RSgn(x) = 0 \/ RSgn(y) = 0 THEN NaN ELSE Inf(RSgn(x) * RSgn(y)))
               ELSE Norm(Fin(x.m * y.m, x.e + y.e))
+\* exponents far apart (TLC integers are 32 bits wide): with |m| < 2^15, an exponent more than 20 higher means a larger magnitude
+Far(x, y) == x.c = "fin" /\ y.c = "fin" /\ x.m # 0 /\ y.m # 0 /\ (x.e - y.e > 20 \/ y.e - x.e > 20)
 RLt(x, y) == IF x.c = "inf" THEN (x.m < 0 /\ ~(y.c = "inf" /\ y.m < 0))
              ELSE IF y.c = "inf" THEN y.m > 0
+             ELSE IF x.m = 0 THEN y.m > 0 ELSE IF y.m = 0 THEN x.m < 0
+             ELSE IF (x.m < 0) # (y.m < 0) THEN x.m < 0
+             ELSE IF Far(x, y) THEN (IF x.m > 0 THEN x.e < y.e ELSE x.e > y.e)
              ELSE LET a == Al(x, y) IN a[1] < a[2]
 \* truncation toward zero of a finite value
-RTrunc(x) == IF x.e >= 0 THEN x.m * P2(x.e) ELSE Sgn(x.m) * (Abs(x.m) \div P2(-x.e))
-Reals == { RZero, Fin(1, 0), Fin(-1, 0), Fin(5, -1), Fin(-5, -1), Fin(3, -2), Fin(7, 3), Fin(-3, 1), Fin(1, -10), Fin(12345, 0), Inf(1), Inf(-1), NaN }
+RTrunc(x) == IF x.e >= 0 THEN x.m * P2(x.e) ELSE IF x.e < -20 THEN 0 ELSE Sgn(x.m) * (Abs(x.m) \div P2(-x.e))      \* |m| < 2^15
+\* the negative zero: equal to zero in every comparison, a zero divisor, and it behaves as zero in all the results judged
+\* here (the sign of a zero result is not judged)
+NZero == [c |-> "nzero", m |-> 0, e |-> 0]
+Z(x) == IF x.c = "nzero" THEN RZero ELSE x
+Reals == { RZero, NZero, Fin(1, 0), Fin(-1, 0), Fin(5, -1), Fin(-5, -1), Fin(3, -2), Fin(7, 3), Fin(-3, 1), Fin(1, -10), Fin(12345, 0), Inf(1), Inf(-1), NaN,
+           Fin(1, 63), Fin(-1, 63), Fin(1, 64), Fin(3, 100), Fin(-5, 120),             \* beyond the 64-bit range, inside the 128-bit one
+           Fin(1, -60), Fin(-1, -60), Fin(3, -200) }                                  \* tiny but not zero
 RealBinOps == {"+", "-", "*", "/", "min", "max", "<", "<=", ">", ">=", "==", "<>"}
 RealUnOps == {"neg", "abs", "zero?", "positive?", "negative?", ">int", "round"}
-RealBin(op, x, y) ==
-  CASE op = "+" -> [k |-> "real", r |-> RAdd(x, y)]
-    [] op = "-" -> [k |-> "real", r |-> RAdd(x, RNeg(y))]
+RealBin(op, x0, y0) ==
+  LET x == Z(x0)  y == Z(y0) IN
+  CASE op = "+" -> IF Far(x, y) THEN [k |-> "skip"] ELSE [k |-> "real", r |-> RAdd(x, y)]          \* inexact: rounding is not modelled
+    [] op = "-" -> IF Far(x, y) THEN [k |-> "skip"] ELSE [k |-> "real", r |-> RAdd(x, RNeg(y))]
     [] op = "*" -> [k |-> "real", r |-> RMul(x, y)]
     [] op = "/" -> IF y.c = "fin" /\ y.m = 0 THEN [k |-> "err", cls |-> "DivZero"]
                    ELSE IF x.c = "nan" \/ y.c = "nan" THEN [k |-> "real", r |-> NaN]
@@ -126,15 +139,19 @@ RealBin(op, x, y) ==
                 [] op = ">=" -> [k |-> "flag", f |-> Flag(~RLt(x, y))]
                 [] op = "==" -> [k |-> "flag", f |-> Flag(~RLt(x, y) /\ ~RLt(y, x))]
                 [] op = "<>" -> [k |-> "flag", f |-> Flag(RLt(x, y) \/ RLt(y, x))]
-RealUn(op, x) ==
+RealUn(op, x0) ==
+  LET x == Z(x0) IN
   CASE op = "neg" -> [k |-> "real", r |-> RNeg(x)]
     [] op = "abs" -> [k |-> "real", r |-> IF x.c = "nan" THEN NaN ELSE [x EXCEPT !.m = Abs(x.m)]]
     [] op = "zero?" -> IF x.c = "nan" THEN [k |-> "skip"] ELSE [k |-> "flag", f |-> Flag(x.c = "fin" /\ x.m = 0)]
     [] op = "positive?" -> IF x.c = "nan" THEN [k |-> "skip"] ELSE [k |-> "flag", f |-> Flag(RSgn(x) > 0)]
     [] op = "negative?" -> IF x.c = "nan" THEN [k |-> "skip"] ELSE [k |-> "flag", f |-> Flag(RSgn(x) < 0)]
-    [] op = ">int" -> IF x.c = "fin" THEN [k |-> "small", n |-> RTrunc(x)] ELSE [k |-> "skip"]          \* outside the i128 range: not covered by the property
+    [] op = ">int" -> IF x.c # "fin" THEN [k |-> "skip"]                                                \* outside the i128 range: not covered by the property
+                      ELSE IF x.e <= 0 THEN [k |-> "small", n |-> RTrunc(x)]
+                      ELSE [k |-> "int", v |-> (LET mag == ShlB(FromNat(Abs(x.m), 128), x.e) IN IF x.m < 0 THEN NegB(mag) ELSE mag), ovf |-> FALSE]             \* m * 2^e as a 128-bit pattern (|m| < 2^15, e <= 120)
     [] op = "round" -> IF x.c # "fin" THEN [k |-> "real", r |-> x]
                        ELSE IF x.e >= 0 THEN [k |-> "real", r |-> x]
+                       ELSE IF x.e < -20 THEN [k |-> "real", r |-> RZero]                                \* |x| < 2^-5
                        ELSE LET twice == (Abs(x.m) % P2(-x.e)) * 2 IN
                             IF twice = P2(-x.e) THEN [k |-> "skip"]                                     \* a tie: which way is a convention, not judged
                             ELSE [k |-> "real", r |-> Norm(Fin(Sgn(x.m) * ((Abs(x.m) \div P2(-x.e)) + (IF twice > P2(-x.e) THEN 1 ELSE 0)), 0))]
